@@ -56,11 +56,15 @@ def splitNl : Str → List Str
 
 def stripCr (l : Str) : Str := if l.getLast? = some '\r' then l.dropLast else l
 
-/-- `str::lines()`: split at `\n`, a final empty piece is dropped, one trailing `\r` per line is stripped -/
+/-- `str::lines()`: split at `\n`; a line that was terminated by `\n` loses one trailing `\r`
+(`\r\n` is a line ending, a lone `\r` is not: the unterminated last piece keeps it); a final empty
+piece is dropped -/
 def lines (s : Str) : List Str :=
   let ps := splitNl s
-  let ps := if ps.getLast? = some [] then ps.dropLast else ps
-  ps.map stripCr
+  let terminated := ps.dropLast.map stripCr
+  match ps.getLast? with
+  | some (c :: l) => terminated ++ [c :: l]
+  | _ => terminated
 
 /-- `position_to_line_col` (diagnostics.rs) = `byte_offset_to_position` (navigation.rs): walk the
 characters until the byte position is reached, counting lines and characters since the last `\n` -/
@@ -142,6 +146,38 @@ def afterConnector (isWs isWord : Char → Bool) (after : Str) : Outcome Str :=
 /-- before the repair the *untrimmed* text was sliced: `after[connector.len()..]` -/
 def afterConnectorBuggy (isWs isWord : Char → Bool) (after : Str) : Outcome Str :=
   sliceFrom after (blen ((after.dropWhile isWs).takeWhile isWord))
+
+/-- `s.rfind(pat)` followed by `&s[idx + pat.len()..]`: the text after the last occurrence of `pat` -/
+def afterLast (pat : Str) : Str → Option Str
+  | [] => none
+  | c :: cs => match afterLast pat cs with
+    | some r => some r
+    | none => if pat.isPrefixOf (c :: cs) then some ((c :: cs).drop pat.length) else none
+
+/-- `str::trim` -/
+def trimWs (isWs : Char → Bool) (s : Str) : Str := ((s.dropWhile isWs).reverse.dropWhile isWs).reverse
+
+/-- one branch of `completion.rs detect_connector_param_context` on the text after `.from(` / `.to(`:
+not closed by `)`, starts (after blanks) with an identifier (`extract_first_identifier`), and what
+follows the identifier (the slice `afterConnector`) starts with `,` — or the identifier is all there is -/
+def connectorBranch (isWs isWord isAlpha : Char → Bool) (after : Str) : Outcome Bool :=
+  if after.contains ')' then .ok false
+  else match after.dropWhile isWs with
+    | [] => .ok false
+    | c :: t =>
+      if !(isAlpha c || c == '_') then .ok false
+      else match afterConnector isWs isWord after with
+        | .ok rest => .ok ((rest.dropWhile isWs).head? == some ',' || trimWs isWs after == (c :: t).takeWhile isWord)
+        | _ => .panic
+
+/-- `detect_connector_param_context(prefix, _).is_some()`: is the cursor among the parameters of
+`.from(Connector, …` / `.to(Connector, …` (`.from(` is looked for first, then `.to(`) -/
+def connectorCtx (isWs isWord isAlpha : Char → Bool) (pre : Str) : Outcome Bool :=
+  match afterLast ".from(".toList pre with
+  | some after => connectorBranch isWs isWord isAlpha after
+  | none => match afterLast ".to(".toList pre with
+    | some after => connectorBranch isWs isWord isAlpha after
+    | none => .ok false
 
 /-- `get_error_end_column` after the repair: columns are character columns -/
 def errorEndColumn (isWord : Char → Bool) (source : Str) (line startCol : Nat) : Outcome Nat :=
